@@ -30,7 +30,7 @@ def program_labels(ctx, case):
         ctx.label("paren:min")
 
 
-def check_case(ctx, case, prop="C01", nontrivial=None):
+def check_case(ctx, case, prop="C01", nontrivial=None, extra_labels=(), check_args=False):
     prog = case.prog
     src = case.source()
     expected = []
@@ -69,6 +69,9 @@ def check_case(ctx, case, prop="C01", nontrivial=None):
         for k in TRACE_CLASSES:
             if k in tr:
                 ctx.label(k)
+        for k in extra_labels:
+            if k in tr:
+                ctx.label(k)
         nt = tr.get("op", 0) >= 2 and any(k.startswith(("iter:", "branch-taken", "branch-else")) for k in tr)
         if nontrivial is not None:
             nt = nontrivial(tr)
@@ -86,6 +89,11 @@ def check_case(ctx, case, prop="C01", nontrivial=None):
         if not same(ran.value, exp.value):
             ctx.fail("wrong-value", "VM returned %r, reference %r\n%s" % (ran.value, exp.value, inp), case)
             return
+        if check_args:
+            for k, v in args.items():
+                if isinstance(v, list) and not same(a2[k], v):
+                    ctx.fail("argument-object-mutated", "host argument %s was %r, is %r after the call\n%s" % (k, v, a2[k], inp), case)
+                    return
         got_g = {k: vm.GetGlobal(k) for k in gl}
         if not same(got_g, exp.globals):
             ctx.fail("wrong-globals", "globals after call: VM %r, reference %r\n%s" % (got_g, exp.globals, inp), case)
